@@ -284,8 +284,9 @@ def _job(comm, specs, serial, root):
     return out
 
 
-def _run(specs, p, serial=False, timeout=900.0, mode="coop"):
+def _run(specs, p, serial=False, timeout=None, mode="coop"):
     """-> (list per spec of list per rank of outputs, failure info or None)"""
+    timeout = timeout or 150.0 * fm.load_factor()
     root = tempfile.mkdtemp(prefix="c22_")
     try:
         res = fm.run(1 if serial else p, _job, specs, serial, root, seed=None, timeout=timeout, mode=mode)
